@@ -9,3 +9,4 @@ pub mod runner;
 pub mod src;
 pub mod view;
 pub mod props;
+pub mod fuzzing;
